@@ -163,16 +163,17 @@ def mac_covers(ctx):
     h = hs[0]
     got = set()
     for u in h.events:
-        o = canon(sb, u.origin)
+      for o in canon(sb, u.origin).split('|'):
         if re.match(r'^elem\(param:UserId\)$', o):
             got.add('marker')
         elif re.match(r'^elem\(param:RevisionVec\)\.0$', o):
             got.add('right')
-        elif re.search(r'@Classic\.sk$', o):
+        # a secret is an element of the chain of an element of the key: EVERY revision of every right, not the head of a chain
+        elif re.search(r'^elem\(elem\(param:RevisionVec\)\.1\)\.@Classic\.sk$', o):
             got.add('classic.sk')
-        elif re.search(r'@Hybridized\.sk$', o):
+        elif re.search(r'^elem\(elem\(param:RevisionVec\)\.1\)\.@Hybridized\.sk$', o):
             got.add('hybridized.sk')
-        elif re.search(r'@Hybridized\.dk$', o):
+        elif re.search(r'^elem\(elem\(param:RevisionVec\)\.1\)\.@Hybridized\.dk(\.@Some\.0)?$', o):
             got.add('hybridized.dk')
     for need in ('marker', 'right', 'classic.sk', 'hybridized.sk', 'hybridized.dk'):
         ctx.check(need in got, sb.key, 'MAC covers %s' % need,
@@ -197,7 +198,7 @@ def mac_covers(ctx):
     ctx.check(not odd, sb.key, 'MAC walks its inputs in their own order, entirely',
               'the KMAC transcript of sign absorbs %s reversed / partially: signatures issued by the pinned release no longer verify '
               '(and what is skipped is not authenticated)' % odd[:2], 'no rev / skip / take / filter on the way', sb.where())
-    ctx.floor(len(h.events), 5, 'KMAC update sites')
+    ctx.floor(len(h.events), 3, 'KMAC update sites')
     # order: markers, then per right: right, then its secrets (key order)
     roles = []
     for u in h.events:
@@ -343,3 +344,38 @@ def rejection_leaves_keys_untouched(ctx):
     followed by an error exit (C10.atomic restricted to refresh and what it calls on the tracing key)."""
     from . import c10
     c10.atomic(ctx, only=r'primitives::refresh$|TracingSecretKey::refresh_id$|primitives::usk_keygen$|api::Covercrypt::refresh_usk$')
+
+
+@rule('C08', 'expected-signature-not-disclosed', configs=('default', 'p256'))
+def expected_signature_not_disclosed(ctx):
+    """'anything else is rejected': the signature the master key WOULD put on the submitted key is computed by `verify` for the
+    comparison only. It is the very value a forger needs, so nothing else may be done with it: the value returned by `sign`
+    inside `verify` flows to the equality test and nowhere else — not into the error message, not back to the caller, not into
+    the key (a rejection that prints the expected signature turns refresh into a signing oracle: copy it into the key, retry)."""
+    F = ctx.F
+    vb = F.fn('core::primitives::verify')
+    n = 0
+    for fb in lib.family_ext(F, vb.key):
+        for c in fb.calls(r'primitives::sign$'):
+            n += 1
+            S, sinks = lib.forward_uses(fb, c.dest['l'])
+            bad = []
+            cmp_seen = False
+            for (kind, det, ln) in sinks:
+                if kind == 'call':
+                    cc, _i = det
+                    if cc.is_(r'^std::cmp::PartialEq::(eq|ne)$'):
+                        cmp_seen = True
+                        continue
+                    if cc.is_(r'^std::ops::FromResidual::from_residual$', r'^std::option::Option::<T>::(as_ref|as_deref|is_some|is_none)$',
+                              r'^std::ops::Deref::deref$', r'^std::convert::AsRef::as_ref$', r'^subtle::ConstantTimeEq::ct_eq$',
+                              r'^std::mem::drop$', r'^zeroize::Zeroize::zeroize$'):
+                        continue
+                    bad.append('%s (line %d)' % (cc.name, ln))
+                else:
+                    bad.append('%s (line %d)' % (kind, ln))
+            ctx.check(not bad and cmp_seen, vb.key, 'expected signature used for the comparison only',
+                      'verify does something else with the signature it computes for the submitted key than comparing it: %s — '
+                      'whoever sees that value can put it into the forged key and have it accepted' % (bad[:2] or 'no comparison'),
+                      'sign(..) -> == / != only', fb.where(c.ln))
+    ctx.floor(n, 1, 'sign call in verify')
